@@ -86,3 +86,9 @@ $(B)/bin/otool: oracle/otool.cpp $(B)/oracle/llvm_mc.o $(B)/oracle/opc.o
 $(B)/gen/x86_forms.txt: gen/dump_x86_forms.js $(REPO)/db/isa_x86.json $(REPO)/db/x86.js $(REPO)/db/base.js
 	@mkdir -p $(B)/gen
 	node gen/dump_x86_forms.js $(REPO) $@ > /dev/null
+$(B)/gen/a64_forms.txt: gen/dump_a64_forms.js $(REPO)/db/isa_aarch64.json $(REPO)/db/aarch64.js $(REPO)/db/base.js
+	@mkdir -p $(B)/gen
+	node gen/dump_a64_forms.js $(REPO) $@ > /dev/null
+$(B)/gen/a64_templates.txt: gen/a64_templates.py $(REPO)/asmjit-testing/tests/asmjit_test_assembler_a64.cpp
+	@mkdir -p $(B)/gen
+	python3 gen/a64_templates.py $(REPO) $@ 2> /dev/null
